@@ -51,7 +51,7 @@ def main():
             if r.returncode != 0:
                 r = sh("git -C %s apply --3way --whitespace=nowarn %s" % (repo, patch))
                 if r.returncode != 0:
-                    sh("git -C %s checkout -- . ; git -C %s reset -q" % (repo, repo))
+                    sh("git -C %s reset -q --hard ; git -C %s clean -fdq" % (repo, repo))
                     results[sid] = dict(applied=False, note=r.stderr[-300:])
                     print(sid, "DOES NOT APPLY", flush=True)
                     continue
